@@ -1,8 +1,63 @@
 /-
   C14 — Widrow–Hoff with unit vectors reproduces Rescorla–Wagner learning
   (α = 1, β₁ = β₂ = η, λ = 1), after renaming vector dimensions to names.
+
+  proved (all over an arbitrary commutative ring, i.e. exact arithmetic):
+  * ONE event / one row of the kernels (ids): `onehot_sum`,
+    `wh_r2b_onehot_eq_rw`, `wh_b2r_onehot_eq_rw`, `wh_r2r_onehot_eq_rw`;
+  * WHOLE event sequences, ON NAMES (lemmas in `PyndlProofs.WHOneHot`):
+    - `OneHotTable t σ`: every labelled row of the vector table `t` is the unit
+      vector of dimension `σ name` — rows in any order, unused dimensions and
+      unused rows allowed (`onehot_table_example`: a shuffled instance);
+    - `whR2BSpec_onehot_eq_rw`, `whB2RSpec_onehot_eq_rw`,
+      `whR2RSpec_onehot_eq_rw` (+ `_table`, `_occurring` instances): the
+      Widrow–Hoff specifications of C08 on a one-hot table, read at dimension
+      `σ c` / `τ o`, ARE `rwLearn` with α = 1 read at the names, for every event
+      list; `*_onehot_unused_dim`: dimensions no occurring name maps to keep 0;
+    - `wh_r2b_onehot_eq_ndl`, `wh_b2r_onehot_eq_ndl`, `wh_r2r_onehot_eq_ndl`:
+      END TO END, model of `wh.wh` (`whModel`: table checks, id maps, duplicate
+      policy, OpenMP entry point with any `n_outcomes_per_job ≥ 1`, labels —
+      C08 `wh_*_end_to_end`) against model of `ndl.ndl` (`ndlModel`: counting,
+      id maps, policy, binary chunk files, both methods, any chunking — C01
+      `ndlModel_eq_spec`), both read through their labels;
+    - `table_row_order_irrelevant_{r2b,b2r,r2r}`: `whModel` returns the SAME
+      result (matrix or error) for any two tables that denote the same name →
+      vector function (`SameVectors`), in particular for a one-hot table and
+      any copy with permuted rows+labels (`onehot_same_vectors`) — the clause
+      attacked by the seeded bug "cue-name → row map built from the wrong
+      list";
+    - `policy_makes_outcomes_unique`: the uniqueness hypothesis of the b2r/r2r
+      statements is automatic for `remove_duplicates=None/True`;
+  * counter-examples (kernel-checked): a repeated outcome (ids and names), and
+    a dimension map that is not injective on the occurring cues.
+
+  hypotheses are the checks of the real code (`ValueError` otherwise: every
+  event name has a row in its table; the duplicate policy accepts the events;
+  32-bit limits of the event file format for `ndl.ndl`; chunk sizes ≥ 1 / ≥ 2)
+  plus the mathematical preconditions of the property itself: one-hot tables,
+  `σ`/`τ` injective on the names that occur (together with the name queried),
+  outcomes unique within an event.
+
+  partial:
+  * floating point: the theorems are about exact arithmetic; for float64 the
+    two learners agree only up to rounding (the differential run compares with
+    a tolerance, exactly inside the exact-dyadic domain);
+  * `wh_binary_binary` (no table given: `wh.wh` calls `ndl.ndl`, wh.py:122-131)
+    is a call, not a computation — checked by the differential run only;
+  * `method='numpy'` of `wh.wh` and `dict_wh` are not in `whModel` (OpenMP
+    entry points only); they are tied to the same specification by C08's
+    differential run;
+  * continued learning (`weights=` given) is not covered here: all statements
+    start from zero weights (C03/C08 treat continuation);
+  * `ndl.ndl` with `n_jobs > 1` may count names in another order than
+    `countNames` (first occurrence); the statements read both matrices through
+    their labels, so only the label order of `ndlModel`'s result would change —
+    this is a trusted item of C01, not re-proved here;
+  * for real → real the "unused dimension" clause is proved for the
+    specification (`whR2RSpec_onehot_unused_*`), not restated for `whModel`.
 -/
 import PyndlProofs.WH
+import PyndlProofs.WHOneHot
 
 namespace Pyndl.C14
 open Pyndl List
@@ -105,5 +160,359 @@ example :
     whRowBin (fun a => (1 : ℤ) * (summedOut #[1] 1 0 [0, 0] - a)) (fun _ => 0) [0] 0 = 2 ∧
     rwRow (fun _ => (1 : ℤ)) 1 1 1 (fun _ => 0) [0] true 0 = 1 := by
   decide +kernel
+
+/-! # whole event sequences, on names -/
+
+/-- a shuffled one-hot cue table over ℤ: rows in the order b, c, a; `a ↦ d3`,
+    `b ↦ d2`, `c ↦ d0`; dimension `d1` is unused; row `c` is unused by `exEvents` -/
+def exTable : VecTable ℤ :=
+  ⟨["b", "c", "a"], ["d0", "d1", "d2", "d3"], #[0,0,1,0,  1,0,0,0,  0,0,0,1]⟩
+
+/-- the same vectors with the rows (and their labels) in another order -/
+def exTable' : VecTable ℤ :=
+  ⟨["a", "b", "c"], ["d0", "d1", "d2", "d3"], #[0,0,0,1,  0,0,1,0,  1,0,0,0]⟩
+
+def exSigma : String → Nat := fun s => if s = "a" then 3 else if s = "b" then 2 else 0
+
+/-- events with several cues, a repeated cue, several outcomes, an empty outcome list -/
+def exEvents : List (Event String String) := [⟨["a", "b"], ["x"]⟩, ⟨["a", "a"], ["y", "x"]⟩, ⟨["b"], []⟩]
+
+/-- `OneHotTable` is satisfiable: the shuffled table (and its permuted copy) -/
+theorem onehot_table_example : OneHotTable exTable exSigma ∧ OneHotTable exTable' exSigma := by
+  constructor
+  · unfold OneHotTable; decide +kernel
+  · unfold OneHotTable; decide +kernel
+
+/-- **`whR2BSpec_onehot_eq_rw`: real → binary with a one-hot cue table IS
+    Rescorla–Wagner on names, for whole event sequences.**
+
+    Preconditions: `hoh` the cue table is one-hot with dimension map `σ` (any
+    row order, unused rows/dimensions allowed); `S` is a set of cue names that
+    have a row in the table (`hSn`) on which `σ` is injective (`hinj`) and that
+    contains all cues of the events (`hS`; `wh.wh` raises `ValueError` for a cue
+    without a row).  Then for EVERY outcome name `o` and every cue `c ∈ S` the
+    Widrow–Hoff weight (C08 `whR2BSpec`) at dimension `σ c` equals the
+    Rescorla–Wagner weight at `c` with α = 1 and the same β₁, β₂, λ (`wh.wh`
+    passes β₁ = β₂ = η, λ = 1). -/
+theorem whR2BSpec_onehot_eq_rw (β₁ β₂ lam : R) (ct : VecTable R) (σ : String → Nat)
+    (hoh : OneHotTable ct σ) (S : String → Prop) (hSn : ∀ c, S c → c ∈ ct.names)
+    (hinj : ∀ a b, S a → S b → σ a = σ b → a = b)
+    (es : List (Event String String)) (hS : ∀ e ∈ es, ∀ c ∈ e.cues, S c)
+    (o c : String) (hc : S c) :
+    whR2BSpec β₁ β₂ lam ct es o (σ c)
+      = rwLearn (fun _ => (1 : R)) β₁ β₂ lam (fun _ _ => 0) es o c :=
+  Pyndl.whR2BSpec_onehot_eq_rw β₁ β₂ lam ct σ hoh S hSn hinj es hS o c hc
+
+/-- instance: `σ` injective on ALL row labels of the table (distinct rows hold
+    distinct unit vectors); then every cue `c` that has a row may be queried,
+    whether it occurs in the events or not -/
+theorem whR2BSpec_onehot_eq_rw_table (β₁ β₂ lam : R) (ct : VecTable R) (σ : String → Nat)
+    (hoh : OneHotTable ct σ) (hinj : ∀ a b, a ∈ ct.names → b ∈ ct.names → σ a = σ b → a = b)
+    (es : List (Event String String)) (htab : ∀ e ∈ es, ∀ c ∈ e.cues, c ∈ ct.names)
+    (o c : String) (hc : c ∈ ct.names) :
+    whR2BSpec β₁ β₂ lam ct es o (σ c)
+      = rwLearn (fun _ => (1 : R)) β₁ β₂ lam (fun _ _ => 0) es o c :=
+  Pyndl.whR2BSpec_onehot_eq_rw β₁ β₂ lam ct σ hoh (· ∈ ct.names) (fun _ h => h) hinj es htab o c hc
+
+/-- instance: `σ` injective only on the cues that OCCUR in the events (the table
+    may hold the same unit vector in rows that are not used); then every
+    occurring cue may be queried -/
+theorem whR2BSpec_onehot_eq_rw_occurring (β₁ β₂ lam : R) (ct : VecTable R) (σ : String → Nat)
+    (hoh : OneHotTable ct σ) (es : List (Event String String))
+    (htab : ∀ e ∈ es, ∀ c ∈ e.cues, c ∈ ct.names)
+    (hinj : ∀ a b, (∃ e ∈ es, a ∈ e.cues) → (∃ e ∈ es, b ∈ e.cues) → σ a = σ b → a = b)
+    (o c : String) (hc : ∃ e ∈ es, c ∈ e.cues) :
+    whR2BSpec β₁ β₂ lam ct es o (σ c)
+      = rwLearn (fun _ => (1 : R)) β₁ β₂ lam (fun _ _ => 0) es o c :=
+  Pyndl.whR2BSpec_onehot_eq_rw β₁ β₂ lam ct σ hoh (fun c => ∃ e ∈ es, c ∈ e.cues)
+    (fun c hc => hc.elim fun e he => htab e he.1 c he.2) hinj es (fun e he _ hce => ⟨e, he, hce⟩) o c hc
+
+/-- a cue dimension that is the image of no cue occurring in the events keeps
+    weight 0 — unused dimensions of the table in particular (no injectivity needed) -/
+theorem whR2BSpec_onehot_unused_dim (β₁ β₂ lam : R) (ct : VecTable R) (σ : String → Nat)
+    (hoh : OneHotTable ct σ) (es : List (Event String String))
+    (htab : ∀ e ∈ es, ∀ c ∈ e.cues, c ∈ ct.names) (o : String) (k : Nat)
+    (hk : ∀ e ∈ es, ∀ c ∈ e.cues, σ c ≠ k) :
+    whR2BSpec β₁ β₂ lam ct es o k = 0 :=
+  Pyndl.whR2BSpec_onehot_unused_dim β₁ β₂ lam ct σ hoh es htab o k hk
+
+/-- **`whB2RSpec_onehot_eq_rw`: binary → real with a one-hot outcome table IS
+    Rescorla–Wagner on names** (α = 1, β₁ = β₂ = η, λ = 1), whole event sequences.
+
+    Preconditions: `hoh` the outcome table is one-hot with dimension map `τ`;
+    `T` a set of outcome names with a row (`hTn`), `τ` injective on it (`hinj`),
+    containing the outcomes of the events (`hT`; else `ValueError`); `hu` no
+    outcome is repeated within an event — the precondition of
+    `wh_b2r_onehot_eq_rw` (there `(e.outcomes.map τ).Nodup`, which is `hu` +
+    `hinj`), needed by the counter-examples below, and guaranteed by the
+    duplicate policy unless `remove_duplicates=False`
+    (`policy_makes_outcomes_unique`).  Then for every `o ∈ T` and EVERY cue
+    name `c`: weight at (dimension `τ o`, c) = Rescorla–Wagner weight at (o, c). -/
+theorem whB2RSpec_onehot_eq_rw (eta : R) (ot : VecTable R) (τ : String → Nat)
+    (hoh : OneHotTable ot τ) (T : String → Prop) (hTn : ∀ o, T o → o ∈ ot.names)
+    (hinj : ∀ a b, T a → T b → τ a = τ b → a = b)
+    (es : List (Event String String)) (hT : ∀ e ∈ es, ∀ o ∈ e.outcomes, T o)
+    (hu : ∀ e ∈ es, e.outcomes.Nodup) (o c : String) (ho : T o) :
+    whB2RSpec eta ot es (τ o) c
+      = rwLearn (fun _ => (1 : R)) eta eta 1 (fun _ _ => 0) es o c :=
+  Pyndl.whB2RSpec_onehot_eq_rw eta ot τ hoh T hTn hinj es hT hu o c ho
+
+/-- an outcome dimension that is the image of no outcome occurring in the events
+    keeps the zero row (no uniqueness, no injectivity needed) -/
+theorem whB2RSpec_onehot_unused_dim (eta : R) (ot : VecTable R) (τ : String → Nat)
+    (hoh : OneHotTable ot τ) (es : List (Event String String))
+    (htab : ∀ e ∈ es, ∀ o ∈ e.outcomes, o ∈ ot.names) (d : Nat) (hd : d < ot.dims.length)
+    (hk : ∀ e ∈ es, ∀ o ∈ e.outcomes, τ o ≠ d) (c : String) :
+    whB2RSpec eta ot es d c = 0 :=
+  Pyndl.whB2RSpec_onehot_unused_dim eta ot τ hoh es htab d hd hk c
+
+/-- **`whR2RSpec_onehot_eq_rw`: real → real with both tables one-hot IS
+    Rescorla–Wagner on names** (α = 1, β₁ = β₂ = η, λ = 1); preconditions of
+    both previous statements. -/
+theorem whR2RSpec_onehot_eq_rw (eta : R) (ct ot : VecTable R) (σ τ : String → Nat)
+    (hohc : OneHotTable ct σ) (hoho : OneHotTable ot τ)
+    (S T : String → Prop) (hSn : ∀ c, S c → c ∈ ct.names) (hTn : ∀ o, T o → o ∈ ot.names)
+    (hinjc : ∀ a b, S a → S b → σ a = σ b → a = b) (hinjo : ∀ a b, T a → T b → τ a = τ b → a = b)
+    (es : List (Event String String)) (hS : ∀ e ∈ es, ∀ c ∈ e.cues, S c)
+    (hT : ∀ e ∈ es, ∀ o ∈ e.outcomes, T o) (hu : ∀ e ∈ es, e.outcomes.Nodup)
+    (o c : String) (ho : T o) (hc : S c) :
+    whR2RSpec eta ct ot es (τ o) (σ c)
+      = rwLearn (fun _ => (1 : R)) eta eta 1 (fun _ _ => 0) es o c :=
+  Pyndl.whR2RSpec_onehot_eq_rw eta ct ot σ τ hohc hoho S T hSn hTn hinjc hinjo es hS hT hu o c ho hc
+
+/-- real → real: unused cue dimensions keep weight 0 (in every row `d` that the
+    events name at most once per event), unused outcome dimensions keep the zero row -/
+theorem whR2RSpec_onehot_unused_dims (eta : R) (ct ot : VecTable R) (σ τ : String → Nat)
+    (hohc : OneHotTable ct σ) (hoho : OneHotTable ot τ) (es : List (Event String String))
+    (htabc : ∀ e ∈ es, ∀ c ∈ e.cues, c ∈ ct.names)
+    (htabo : ∀ e ∈ es, ∀ o ∈ e.outcomes, o ∈ ot.names) (d : Nat) (hd : d < ot.dims.length) (k : Nat) :
+    ((∀ e ∈ es, (e.outcomes.map τ).count d ≤ 1) → (∀ e ∈ es, ∀ c ∈ e.cues, σ c ≠ k) →
+      whR2RSpec eta ct ot es d k = 0) ∧
+    ((∀ e ∈ es, ∀ o ∈ e.outcomes, τ o ≠ d) → whR2RSpec eta ct ot es d k = 0) :=
+  ⟨fun hu hk => whR2RSpec_onehot_unused_cue_dim eta ct ot σ τ hohc hoho es htabc htabo d hd hu k hk,
+   fun hk => whR2RSpec_onehot_unused_out_dim eta ct ot σ τ hohc hoho es htabc htabo d hd hk k⟩
+
+/-- the uniqueness precondition `hu` is what the duplicate policy guarantees for
+    `remove_duplicates=None` (accepted events) and `True`; only `False` can let a
+    repeated outcome through -/
+theorem policy_makes_outcomes_unique (p : DupPolicy) (hk : p ≠ .keep)
+    (es es' : List (Event String String)) (hp : applyPolicyAll p es = some es') :
+    ∀ e ∈ es', e.outcomes.Nodup :=
+  applyPolicyAll_outcomes_nodup p hk es es' hp
+
+/-! ## end to end: the model of `wh.wh` against the model of `ndl.ndl` -/
+
+/-- **real → binary, end to end** (C08 `wh_r2b_end_to_end` ∘ this file ∘ C01
+    `ndlModel_eq_spec`).  Preconditions: `hper : 2 ≤ events_per_temporary_file`,
+    `hjob : 1 ≤ n_outcomes_per_job` of the `ndl.ndl` call and `hfit` the 32-bit
+    limits of its event files (it raises outside); `hc : 1 ≤ n_outcomes_per_job`
+    of the `wh.wh` call; `hp` the duplicate policy accepts the events (else both
+    raise `ValueError`); the cues of the events have rows in the table (`hS`,
+    `hSn`; else `wh.wh` raises); `hoh`, `hinj` as above.  Conclusion: both
+    calls succeed and, for EVERY outcome name `o`, every cue `c ∈ S` and the
+    dimension label `dl` at position `σ c`, `wh.wh`'s matrix at (o, dl) equals
+    `ndl.ndl`'s (α = 1, same β₁ β₂ λ) at (o, c); labels at positions that are
+    the image of no occurring cue read 0.  Any two chunkings, both `ndl`
+    methods. -/
+theorem wh_r2b_onehot_eq_ndl (cfg : NdlCfg) (hper : 2 ≤ cfg.perFile) (hjob : 1 ≤ cfg.perJob) (eta β₁ β₂ lam : R)
+    (ct : VecTable R) (σ : String → Nat) (chunk : Nat) (hc : 1 ≤ chunk)
+    (es es' : List (Event String String)) (hp : applyPolicyAll cfg.policy es = some es') (hfit : Fits32 es)
+    (hoh : OneHotTable ct σ) (S : String → Prop) (hSn : ∀ c, S c → c ∈ ct.names)
+    (hinj : ∀ a b, S a → S b → σ a = σ b → a = b) (hS : ∀ e ∈ es, ∀ c ∈ e.cues, S c) :
+    ∃ w wn, whModel .r2b cfg.policy eta β₁ β₂ lam (some ct) none chunk none es = .ok w ∧
+      ndlModel Generated.pyMagic Generated.pyVersion cfg 1 β₁ β₂ lam none es = .ok (wn, es.length) ∧
+      (∀ o c dl, S c → dl ∈ ct.dims → ct.dims.idxOf dl = σ c → w.get o dl = wn.get o c) ∧
+      (∀ o dl, (∀ e ∈ es, ∀ c ∈ e.cues, σ c ≠ ct.dims.idxOf dl) → w.get o dl = 0) :=
+  whModel_r2b_onehot_eq_ndl Generated.pyMagic Generated.pyVersion (by decide) (by decide) cfg hper hjob
+    eta β₁ β₂ lam ct σ chunk hc es es' hp hfit hoh S hSn hinj hS
+
+/-- **binary → real, end to end**: as before with the outcome table; `hu` no
+    outcome repeated within a policy-processed event
+    (`policy_makes_outcomes_unique`).  `wh.wh`'s matrix at (label at position
+    `τ o`, c) equals `ndl.ndl`'s (α = 1, β₁ = β₂ = η, λ = 1) at (o, c), for every
+    `o ∈ T` and EVERY cue name `c`; unused outcome dimensions read 0. -/
+theorem wh_b2r_onehot_eq_ndl (cfg : NdlCfg) (hper : 2 ≤ cfg.perFile) (hjob : 1 ≤ cfg.perJob) (eta β₁ β₂ lam : R)
+    (ot : VecTable R) (τ : String → Nat) (chunk : Nat) (hc : 1 ≤ chunk)
+    (es es' : List (Event String String)) (hp : applyPolicyAll cfg.policy es = some es') (hfit : Fits32 es)
+    (hoh : OneHotTable ot τ) (T : String → Prop) (hTn : ∀ o, T o → o ∈ ot.names)
+    (hinj : ∀ a b, T a → T b → τ a = τ b → a = b) (hT : ∀ e ∈ es, ∀ o ∈ e.outcomes, T o)
+    (hu : ∀ e ∈ es', e.outcomes.Nodup) :
+    ∃ w wn, whModel .b2r cfg.policy eta β₁ β₂ lam none (some ot) chunk none es = .ok w ∧
+      ndlModel Generated.pyMagic Generated.pyVersion cfg 1 eta eta 1 none es = .ok (wn, es.length) ∧
+      (∀ o c dl, T o → dl ∈ ot.dims → ot.dims.idxOf dl = τ o → w.get dl c = wn.get o c) ∧
+      (∀ dl c, (∀ e ∈ es, ∀ o ∈ e.outcomes, τ o ≠ ot.dims.idxOf dl) → w.get dl c = 0) :=
+  whModel_b2r_onehot_eq_ndl Generated.pyMagic Generated.pyVersion (by decide) (by decide) cfg hper hjob
+    eta β₁ β₂ lam ot τ chunk hc es es' hp hfit hoh T hTn hinj hT hu
+
+/-- **real → real, end to end**: both tables one-hot; `wh.wh`'s matrix at (label
+    at position `τ o`, label at position `σ c`) equals `ndl.ndl`'s at (o, c). -/
+theorem wh_r2r_onehot_eq_ndl (cfg : NdlCfg) (hper : 2 ≤ cfg.perFile) (hjob : 1 ≤ cfg.perJob) (eta β₁ β₂ lam : R)
+    (ct ot : VecTable R) (σ τ : String → Nat) (chunk : Nat) (hc : 1 ≤ chunk)
+    (es es' : List (Event String String)) (hp : applyPolicyAll cfg.policy es = some es') (hfit : Fits32 es)
+    (hohc : OneHotTable ct σ) (hoho : OneHotTable ot τ)
+    (S T : String → Prop) (hSn : ∀ c, S c → c ∈ ct.names) (hTn : ∀ o, T o → o ∈ ot.names)
+    (hinjc : ∀ a b, S a → S b → σ a = σ b → a = b) (hinjo : ∀ a b, T a → T b → τ a = τ b → a = b)
+    (hS : ∀ e ∈ es, ∀ c ∈ e.cues, S c) (hT : ∀ e ∈ es, ∀ o ∈ e.outcomes, T o)
+    (hu : ∀ e ∈ es', e.outcomes.Nodup) :
+    ∃ w wn, whModel .r2r cfg.policy eta β₁ β₂ lam (some ct) (some ot) chunk none es = .ok w ∧
+      ndlModel Generated.pyMagic Generated.pyVersion cfg 1 eta eta 1 none es = .ok (wn, es.length) ∧
+      (∀ o c dlo dlc, T o → S c → dlo ∈ ot.dims → ot.dims.idxOf dlo = τ o →
+        dlc ∈ ct.dims → ct.dims.idxOf dlc = σ c → w.get dlo dlc = wn.get o c) :=
+  whModel_r2r_onehot_eq_ndl Generated.pyMagic Generated.pyVersion (by decide) (by decide) cfg hper hjob
+    eta β₁ β₂ lam ct ot σ τ chunk hc es es' hp hfit hohc hoho S T hSn hTn hinjc hinjo hS hT hu
+
+/-! ## the row order of the vector tables is irrelevant -/
+
+/-- one-hot tables with the same `σ`, the same dimension labels and the same SET
+    of row labels denote the same vectors (`SameVectors`) — so permuting the
+    rows of a one-hot table together with its labels changes nothing below -/
+theorem onehot_same_vectors (t t' : VecTable R) (σ : String → Nat) (h : OneHotTable t σ)
+    (h' : OneHotTable t' σ) (hd : t'.dims = t.dims) (hn : ∀ c, c ∈ t'.names ↔ c ∈ t.names) :
+    SameVectors t t' :=
+  sameVectors_of_onehot t t' σ h h' hd hn
+
+/-- **`table_row_order_irrelevant`, real → binary**: for every event list,
+    duplicate policy and `n_outcomes_per_job` (NO precondition besides
+    `SameVectors`), `wh.wh` from scratch returns the same labelled matrix, or
+    the same error, for any two cue tables that hold the same vector under
+    every row label — names are resolved through the table's own row order. -/
+theorem table_row_order_irrelevant_r2b (p : DupPolicy) (eta β₁ β₂ lam : R) (ct ct' : VecTable R)
+    (h : SameVectors ct ct') (chunk : Nat) (es : List (Event String String)) :
+    whModel .r2b p eta β₁ β₂ lam (some ct') none chunk none es
+      = whModel .r2b p eta β₁ β₂ lam (some ct) none chunk none es :=
+  whModel_r2b_table_order p eta β₁ β₂ lam ct ct' h chunk es
+
+/-- **`table_row_order_irrelevant`, binary → real** -/
+theorem table_row_order_irrelevant_b2r (p : DupPolicy) (eta β₁ β₂ lam : R) (ot ot' : VecTable R)
+    (h : SameVectors ot ot') (chunk : Nat) (es : List (Event String String)) :
+    whModel .b2r p eta β₁ β₂ lam none (some ot') chunk none es
+      = whModel .b2r p eta β₁ β₂ lam none (some ot) chunk none es :=
+  whModel_b2r_table_order p eta β₁ β₂ lam ot ot' h chunk es
+
+/-- **`table_row_order_irrelevant`, real → real** (both tables) -/
+theorem table_row_order_irrelevant_r2r (p : DupPolicy) (eta β₁ β₂ lam : R) (ct ct' ot ot' : VecTable R)
+    (hcv : SameVectors ct ct') (hov : SameVectors ot ot') (chunk : Nat) (es : List (Event String String)) :
+    whModel .r2r p eta β₁ β₂ lam (some ct') (some ot') chunk none es
+      = whModel .r2r p eta β₁ β₂ lam (some ct) (some ot) chunk none es :=
+  whModel_r2r_table_order p eta β₁ β₂ lam ct ct' ot ot' hcv hov chunk es
+
+/-- the specifications themselves do not see the row order either -/
+theorem spec_row_order_irrelevant (eta β₁ β₂ lam : R) (ct ct' ot ot' : VecTable R)
+    (hcv : SameVectors ct ct') (hov : SameVectors ot ot') (es : List (Event String String))
+    (htabc : ∀ e ∈ es, ∀ c ∈ e.cues, c ∈ ct.names) (htabo : ∀ e ∈ es, ∀ o ∈ e.outcomes, o ∈ ot.names)
+    (d : Nat) (hd : d < ot.dims.length) (o : String) :
+    whR2BSpec β₁ β₂ lam ct' es o = whR2BSpec β₁ β₂ lam ct es o ∧
+    whB2RSpec eta ot' es d = whB2RSpec eta ot es d ∧
+    whR2RSpec eta ct' ot' es d = whR2RSpec eta ct ot es d :=
+  ⟨whR2BSpec_sameVectors β₁ β₂ lam ct ct' hcv es htabc o,
+   whB2RSpec_sameVectors eta ot ot' hov es htabo d hd,
+   whR2RSpec_sameVectors eta ct ct' ot ot' hcv hov es htabc htabo d hd⟩
+
+/-! ## non-vacuity and counter-examples (ℤ, kernel-checked) -/
+
+/-- the two example tables denote the same vectors -/
+example : SameVectors exTable exTable' := by
+  have h1 : ∀ c ∈ exTable'.names, c ∈ exTable.names := by decide +kernel
+  have h2 : ∀ c ∈ exTable.names, c ∈ exTable'.names := by decide +kernel
+  exact onehot_same_vectors exTable exTable' exSigma onehot_table_example.1 onehot_table_example.2 rfl
+    (fun c => ⟨h1 c, h2 c⟩)
+
+/-- the preconditions of `whR2BSpec_onehot_eq_rw_table` hold for the example:
+    `exSigma` is injective on the row labels and the event cues have rows -/
+theorem exSigma_inj : ∀ a b, a ∈ exTable.names → b ∈ exTable.names → exSigma a = exSigma b → a = b := by
+  have h : ∀ a ∈ exTable.names, ∀ b ∈ exTable.names, exSigma a = exSigma b → a = b := by decide +kernel
+  exact fun a b ha hb => h a ha b hb
+
+theorem exEvents_in_table : ∀ e ∈ exEvents, ∀ c ∈ e.cues, c ∈ exTable.names := by decide +kernel
+
+/-- … and the values are not trivial (β₁ = 2, β₂ = 3, λ = 5): outcome `x` has
+    weight −50 at `d3` = cue `a` and −20 at `d2` = cue `b`, outcome `y` has 20 at
+    `d3` = `a`; the unused dimensions `d1`, `d0` (cue `c` does not occur) stay 0 -/
+example :
+    (whR2BSpec (2 : ℤ) 3 5 exTable exEvents "x" 3, whR2BSpec (2 : ℤ) 3 5 exTable exEvents "x" 2,
+     whR2BSpec (2 : ℤ) 3 5 exTable exEvents "y" 3, whR2BSpec (2 : ℤ) 3 5 exTable exEvents "x" 1,
+     whR2BSpec (2 : ℤ) 3 5 exTable exEvents "x" 0) = (-50, -20, 20, 0, 0) ∧
+    (rwLearn (fun _ => (1 : ℤ)) 2 3 5 (fun _ _ => 0) exEvents "x" "a",
+     rwLearn (fun _ => (1 : ℤ)) 2 3 5 (fun _ _ => 0) exEvents "x" "b",
+     rwLearn (fun _ => (1 : ℤ)) 2 3 5 (fun _ _ => 0) exEvents "y" "a") = (-50, -20, 20) :=
+  ⟨by decide +kernel, by decide +kernel⟩
+
+/-- the models run: `wh.wh` on the shuffled table and on the permuted copy return
+    the same labelled matrix (policy `False`, one outcome per job), `ndl.ndl`
+    (openmp, one outcome per job, two events per file) the corresponding one -/
+example :
+    (match whModel .r2b .keep (1 : ℤ) 2 3 5 (some exTable) none 1 none exEvents with
+     | .ok w => some (w.outcomes, w.cues, w.vals) | .error _ => none)
+      = some (["x", "y"], ["d0", "d1", "d2", "d3"], #[0, 0, -20, -50,  0, 0, 0, 20]) ∧
+    (match whModel .r2b .keep (1 : ℤ) 2 3 5 (some exTable') none 1 none exEvents with
+     | .ok w => some (w.outcomes, w.cues, w.vals) | .error _ => none)
+      = some (["x", "y"], ["d0", "d1", "d2", "d3"], #[0, 0, -20, -50,  0, 0, 0, 20]) ∧
+    (match ndlModel Generated.pyMagic Generated.pyVersion ⟨.keep, .openmp, 1, 2⟩ (1 : ℤ) 2 3 5 none exEvents with
+     | .ok (w, k) => some (w.outcomes, w.cues, w.vals, k) | .error _ => none)
+      = some (["x", "y"], ["a", "b"], #[-50, -20,  20, 0], 3) :=
+  ⟨by decide +kernel, by decide +kernel, by decide +kernel⟩
+
+/-- the preconditions of the end-to-end statement `wh_r2b_onehot_eq_ndl` are
+    jointly satisfiable: the example instantiates it completely -/
+example :
+    ∃ w wn, whModel .r2b .keep (1 : ℤ) 2 3 5 (some exTable) none 1 none exEvents = .ok w ∧
+      ndlModel Generated.pyMagic Generated.pyVersion ⟨.keep, .openmp, 1, 2⟩ (1 : ℤ) 2 3 5 none exEvents
+        = .ok (wn, exEvents.length) ∧
+      (∀ o c dl, c ∈ exTable.names → dl ∈ exTable.dims → exTable.dims.idxOf dl = exSigma c →
+        w.get o dl = wn.get o c) ∧
+      (∀ o dl, (∀ e ∈ exEvents, ∀ c ∈ e.cues, exSigma c ≠ exTable.dims.idxOf dl) → w.get o dl = 0) :=
+  wh_r2b_onehot_eq_ndl ⟨.keep, .openmp, 1, 2⟩ (by decide) (by decide) 1 2 3 5 exTable exSigma 1 (by decide)
+    exEvents exEvents (by decide +kernel)
+    ⟨by decide +kernel, by decide +kernel, by decide +kernel, by decide +kernel⟩
+    onehot_table_example.1 (· ∈ exTable.names) (fun _ h => h) exSigma_inj exEvents_in_table
+
+/-- a one-hot OUTCOME table (rows y, x; `x ↦ e2`, `y ↦ e0`, `e1` unused) -/
+def exOutTable : VecTable ℤ := ⟨["y", "x"], ["e0", "e1", "e2"], #[1,0,0,  0,0,1]⟩
+def exTau : String → Nat := fun s => if s = "x" then 2 else 0
+
+example : OneHotTable exOutTable exTau := by unfold OneHotTable; decide +kernel
+
+/-- binary → real and real → real on the example (η = 1 over ℤ would be
+    degenerate; η = 2): the Widrow–Hoff rows at `τ x = 2`, `τ y = 0` are the
+    Rescorla–Wagner rows of `x`, `y`; the unused outcome dimension 1 stays 0 -/
+example :
+    (whB2RSpec (2 : ℤ) exOutTable exEvents 2 "a", whB2RSpec (2 : ℤ) exOutTable exEvents 2 "b",
+     whB2RSpec (2 : ℤ) exOutTable exEvents 0 "a", whB2RSpec (2 : ℤ) exOutTable exEvents 1 "a")
+      = (rwLearn (fun _ => (1 : ℤ)) 2 2 1 (fun _ _ => 0) exEvents "x" "a",
+         rwLearn (fun _ => (1 : ℤ)) 2 2 1 (fun _ _ => 0) exEvents "x" "b",
+         rwLearn (fun _ => (1 : ℤ)) 2 2 1 (fun _ _ => 0) exEvents "y" "a", 0) ∧
+    (whR2RSpec (2 : ℤ) exTable exOutTable exEvents 2 3, whR2RSpec (2 : ℤ) exTable exOutTable exEvents 2 2,
+     whR2RSpec (2 : ℤ) exTable exOutTable exEvents 0 3)
+      = (rwLearn (fun _ => (1 : ℤ)) 2 2 1 (fun _ _ => 0) exEvents "x" "a",
+         rwLearn (fun _ => (1 : ℤ)) 2 2 1 (fun _ _ => 0) exEvents "x" "b",
+         rwLearn (fun _ => (1 : ℤ)) 2 2 1 (fun _ _ => 0) exEvents "y" "a") ∧
+    rwLearn (fun _ => (1 : ℤ)) 2 2 1 (fun _ _ => 0) exEvents "x" "a" ≠ 0 :=
+  ⟨by decide +kernel, by decide +kernel, by decide +kernel⟩
+
+/-- **uniqueness of outcomes is needed, on names**: one event with the outcome
+    `x` twice (`remove_duplicates=False`), cue `a`, η = 1: Widrow–Hoff learns 2
+    (the summed one-hot target), Rescorla–Wagner learns 1 -/
+example :
+    whB2RSpec (1 : ℤ) exOutTable [⟨["a"], ["x", "x"]⟩] (exTau "x") "a" = 2 ∧
+    rwLearn (fun _ => (1 : ℤ)) 1 1 1 (fun _ _ => 0) [(⟨["a"], ["x", "x"]⟩ : Event String String)] "x" "a" = 1 :=
+  ⟨by decide +kernel, by decide +kernel⟩
+
+/-- a one-hot table whose dimension map is NOT injective on the occurring cues:
+    `a` and `b` both hold the unit vector of `d0`, `c` that of `d1` -/
+def exTableBad : VecTable ℤ := ⟨["a", "b", "c"], ["d0", "d1"], #[1,0,  1,0,  0,1]⟩
+def exSigmaBad : String → Nat := fun s => if s = "c" then 1 else 0
+
+/-- **injectivity of `σ` on the occurring cues is needed**: the table is one-hot
+    and all cues have rows, but `a` and `b` share a dimension.  After the events
+    `a → o`, `b c → o` (β₁ = β₂ = λ = 1) Rescorla–Wagner gives cue `c` — which has
+    a dimension of its own — weight 1, Widrow–Hoff gives its dimension weight 0
+    (the activation of the second event already contains the weight learned
+    for `a`). -/
+example :
+    OneHotTable exTableBad exSigmaBad ∧
+    whR2BSpec (1 : ℤ) 1 1 exTableBad [⟨["a"], ["o"]⟩, ⟨["b", "c"], ["o"]⟩] "o" (exSigmaBad "c") = 0 ∧
+    rwLearn (fun _ => (1 : ℤ)) 1 1 1 (fun _ _ => 0)
+      [(⟨["a"], ["o"]⟩ : Event String String), ⟨["b", "c"], ["o"]⟩] "o" "c" = 1 :=
+  ⟨by unfold OneHotTable; decide +kernel, by decide +kernel, by decide +kernel⟩
 
 end Pyndl.C14
